@@ -412,6 +412,12 @@ func shrinkTape(tape []rt.Choice, test func([]rt.Choice) bool, budget *int) []rt
 }
 
 func workerMinimize(t *testing.T, prop, tier string) {
+	// Every violation is run again here before it is reported - with the
+	// single-runner invariant checked by real goroutine ids. A goroutine that was
+	// woken inside a blocking construct the simulator does not control (io.Pipe,
+	// a mutex of another package) runs without the token; what an oracle makes of
+	// such a run is worthless, and the check ends with exit 2 instead of a verdict.
+	rt.Paranoid = true
 	seed, _ := strconv.ParseUint(os.Getenv("VERIF_RUNSEED"), 10, 64)
 	outPath := os.Getenv("VERIF_OUT")
 	var res *Result
@@ -435,7 +441,11 @@ func workerMinimize(t *testing.T, prop, tier string) {
 		res = RunOne(t, prop, tier, seed, gen0, sched0, true)
 	}
 	if res.Violation == nil {
-		fmt.Fprintf(os.Stderr, "minimize: seed %d does not reproduce (harness error %q)\n", seed, res.HarnessError)
+		if strings.Contains(res.Inconclusive, "single-runner") {
+			fmt.Fprintf(os.Stderr, "minimize: the simulator lost control of the schedule in seed %d (a goroutine ran without the token: the tree blocks in a construct that is not instrumented): %s\n", seed, res.Inconclusive)
+			os.Exit(2)
+		}
+		fmt.Fprintf(os.Stderr, "minimize: seed %d does not reproduce (harness error %q, inconclusive %q)\n", seed, res.HarnessError, res.Inconclusive)
 		os.Exit(2)
 	}
 	class := res.Violation.Class
